@@ -27,8 +27,11 @@ PROP = "C09"
 ABS = {"abstract_int_str": True}
 
 
+_TYPING = {}
+
+
 def fields_of(model, kwargs):
-    return {k: harness.model_value(model, v) for k, v in kwargs.items()}
+    return {k: keyrun.typed_value(harness.model_value(model, v), _TYPING.get(k)) for k, v in kwargs.items()}
 
 
 def pair_witness(kind, ta, fa, tb, fb, why):
@@ -60,6 +63,8 @@ def _rep(kwargs):
 
 
 def _check(prog, typing, timeout_ms, tally, out):
+    _TYPING.clear()
+    _TYPING.update(typing or {})
     A = keyrun.keyed_run(prog, typing, opts=ABS)
     out["text"] = A.text
     if A.run is None:
